@@ -9,7 +9,7 @@ CONSTANTS
     ValLen <- MCValLen
     PageSize = 4096
     TrunkCap = 1020
-    Quirks = {"sep_chain", "cursor_empty_leaf", "range_excl_empty"}
+    Quirks = {}
     Pre <- Pre_empty
     ActKeys = {1, 2, 3, 4, 5, 6}
     ActClasses = {1, 2, 3, 4, 5}
